@@ -83,11 +83,9 @@ def run(prop, tier):
 
         gen = {"MCCoverage.tla": open(os.path.join(C.SPEC, "MCCoverage.tla")).read()
                .replace("MCCosts == {<<1,2>>, <<20,1>>}", "MCCosts == {<<1,2>>, <<1,1>>, <<20,1>>}")
-               .replace("MCDts == {<<1,12>>, <<1,4>>, <<1,1>>}", "MCDts == {<<1,12>>, <<1,10>>, <<1,4>>, <<1,1>>, <<2,1>>}")
-               .replace("MCSats == {None, <<1,2>>, <<3,1>>}", "MCSats == {None, <<1,2>>, <<1,1>>, <<3,1>>}")
+               .replace("MCDts == {<<1,12>>, <<1,4>>, <<1,1>>}", "MCDts == {<<1,12>>, <<1,10>>, <<1,4>>, <<1,1>>}")
                .replace("<<<<1,1>>, <<1,1>>>>}", "<<<<1,1>>, <<1,1>>>>, <<<<1000,1>>, <<7,1>>>>}")
-               .replace("cap |-> {<<<<2,1>>, <<400,1>>>>}", "cap |-> {<<<<2,1>>, <<400,1>>>>, <<<<0,1>>, <<0,1>>>>}")
-               .replace("cov |-> {<<<<1,4>>, <<3,1>>>>}", "cov |-> {<<<<1,4>>, <<3,1>>>>, <<<<1,2>>, <<1,2>>>>}")}
+               .replace("cov |-> {<<<<1,4>>, <<3,1>>>>}", "cov |-> {<<<<1,4>>, <<3,1>>>>, <<<<1,2>>, <<1,2>>>>}")}  # (a scalar coverage overwrite as well)
     r, cases = C.enumerate_cases(["Rat", "Coverage", "MCCoverage"], "MCCoverage", cfg(), timeout=3000, generated=gen)
     cov = dict(states=r.distinct, transitions=r.generated, traces_validated_against_impl=0, samples=[], exhaustive=True, cases=len(cases))
     records, index = [], {}
